@@ -26,7 +26,13 @@ def run(ctx):
     ngen = 8 if ctx.tier == "quick" else 24
     pool = [("Kelvins", "Kelvins"), ("Celsius", "Celsius"), ("Fahrenheit", "Fahrenheit"), ("mK", "Milli<Kelvins>"), ("cC", "Centi<Celsius>"),
             ("kK", "Kilo<Kelvins>"), ("mF", "Milli<Fahrenheit>"), ("dC", "Deci<Celsius>")]
-    decls = []
+    decls = ["struct A5 : decltype(Kelvins{} * mag<1>()) { static constexpr auto origin() { return kelvins(5); } };",
+             "struct B7 : decltype(Kelvins{} * mag<1>()) { static constexpr auto origin() { return kelvins(7); } };",
+             "struct H3 : decltype(Kelvins{} / mag<2>()) { static constexpr auto origin() { return (kelvins / mag<2>())(3); } };",
+             "struct Rk : decltype(Kelvins{} * mag<5>() / mag<9>()) {};"]
+    # same size, origins of the same type but different values; an anonymous scaled unit of a named unit's size with another origin; Rankines
+    pool += [("A5", "A5"), ("B7", "B7"), ("H3", "H3"), ("kC/1000", "decltype(Kilo<Celsius>{} / mag<1000>())"), ("Rankines", "Rk")]
+    fixed_names = ("Kelvins", "Celsius", "Fahrenheit", "kK", "A5", "B7", "H3", "kC/1000", "Rankines")
     seen = set()
     for g in range(ngen):
         while True:
@@ -45,7 +51,9 @@ def run(ctx):
     pairs = list(itertools.combinations(range(len(pool)), 2))
     triples = list(itertools.combinations(range(len(pool)), 3))
     rnd.shuffle(triples)
-    lists = [list(p) for p in pairs] + [list(t) for t in triples[: (60 if ctx.tier == "quick" else 1200)]]
+    fixed_idx = [k for k, (nm, _t) in enumerate(pool) if nm in fixed_names]
+    fixed_triples = [list(t) for t in itertools.combinations(fixed_idx, 3)]
+    lists = [list(p) for p in pairs] + fixed_triples + [list(t) for t in triples[: (60 if ctx.tier == "quick" else 1200)] if list(t) not in fixed_triples]
     if ctx.tier == "thorough":
         quads = list(itertools.combinations(range(len(pool)), 4))
         rnd.shuffle(quads)
